@@ -550,6 +550,24 @@ class _StateWalker(Walker):
                         lv = kids(ks[-2])[0] if kids(ks[-2]) else {}
                         if _unwrap(kids(callee)[0]).get("referencedDecl", {}).get("id") == lv.get("id"):
                             return self.c.apply(("def", t[0], n, True), st)
+        if n.get("kind") == "ForStmt":
+            # idiom: for (i = 0; i < N; ++i) FIELD[i].clear();  with N the declared extent of the array member
+            ks = kids(n)
+            if len(ks) == 5 and ks[0] and ks[2] and ks[3]:
+                body = ks[4]
+                while body.get("kind") == "CompoundStmt" and len(kids(body)) == 1:
+                    body = kids(body)[0]
+                b = _unwrap(body)
+                m = re.match(r'^(\w+)\[(\w+)\]\.clear\(\)$', canon(b))
+                if m and b.get("kind") == "CXXMemberCallExpr":
+                    fld, iv = m.group(1), m.group(2)
+                    fd = self.c.eng.fields.get(fld)
+                    ext = re.search(r'\[(\d+)\]\s*$', qt(fd)) if fd is not None else None
+                    init_ok = re.match(r'^\w[\w ]* %s = 0$' % iv, canon(ks[0])) is not None
+                    cond = re.match(r'^\(%s < (\d+)\)$' % iv, canon(ks[2]))
+                    inc_ok = canon(ks[3]) in ("(++%s)" % iv, "(%s++)" % iv)
+                    if ext and init_ok and cond and inc_ok and int(cond.group(1)) == int(ext.group(1)):
+                        return self.c.apply(("def", fld, n, True), st)
         return Walker.run(self, n, st)
 
 
